@@ -311,7 +311,7 @@ def part_fuzz(ctx, runs, seed):
     try:
         env = dict(os.environ)
         cmd = [sys.executable, os.path.join(here, "fuzz_c10.py"), out, f"-runs={runs}", f"-seed={seed}",
-               "-max_len=256", "-verbosity=0", "-print_final_stats=1"]
+               "-max_len=256", "-verbosity=0", "-print_final_stats=1", f"-artifact_prefix={out}/"]
         try:
             r = subprocess.run(cmd, capture_output=True, text=True, env=env, timeout=3000)
         except subprocess.TimeoutExpired:
